@@ -439,6 +439,17 @@ class WorldJob(object):
             info['visits'].append(visits_rec)
         info['fail_at'] = fail_at
         info['state'] = state
+        # an interrupt (Ctrl-C) is not one of the failures the property makes a statement about: the command may stop with
+        # any status or even carry on.  What the property does say still holds for such a run - every file old or new,
+        # nothing outside the targets touched - and that is all an interrupted run is held to.
+        intr = fired is not None and fired['kind'].startswith('INTR')
+        if intr and inflight is None and fired['ev'] != 'scandir' and fired.get('rp') is not None:
+            # the command went on after the interrupt: the listing no longer tells which visit was cut short
+            self.probe('intr_run_continued')
+            info['inflight'] = None
+            info['exit'] = rec['exit']
+            info['stdout_b'] = rec['stdout_b']
+            return info
 
         # ---- R1: the command visited only what it was pointed at
         if P is not None and V is not None:
@@ -542,7 +553,7 @@ class WorldJob(object):
                     self.vio('C15', 'R5', 'fault %s:%s on %s (before anything was written): file changed %s -> %s' % (
                         fired['ev'], fired['kind'], fired.get('rp'), _b(inflight['before'], 60), _b(got, 60)), run_desc,
                         key=dict(fkey, file_role='inflight'))
-                if rec['exit'] == 0:
+                if rec['exit'] == 0 and not intr:
                     self.vio('C15', 'R5', 'fault %s:%s on %s: exit status 0' % (fired['ev'], fired['kind'], fired.get('rp')), run_desc,
                              key=dict(fkey, file_role='inflight', what='exit-status'))
                 if mode == 'stdout' and rec['stdout_b']:
@@ -562,7 +573,7 @@ class WorldJob(object):
             later = [e for e in rec['events'] if e['s'] > fault_sq and e['c'] in ('open_r', 'open_w', 'scandir')
                      and not (e.get('rp') in own and e['c'] != 'scandir') and not (e.get('rp') is not None and e['rp'] not in pre)]
             # (re-opening the file in flight - e.g. to put the original back - or a temporary of its own is not "going on")
-            if later:
+            if later and not intr:
                 self.vio('C15', 'R5', 'the run went on after fault %s:%s: %s' % (fired['ev'], fired['kind'], [(e['c'], e.get('rp')) for e in later[:3]]),
                          run_desc, key=dict(fkey, what='continued-after-fault'))
         elif fired is not None and fired['ev'] in ('open_r', 'read', 'open_w') and fired.get('rp') is not None:
